@@ -1412,6 +1412,10 @@ fn execute_multi_thread_files_linewise(mut stdout: io::StdoutLock, args: &Opts) 
 
 	// Separate content by file
 	let mut per_file: BTreeMap<PathBuf, Vec<(usize,String)>> = BTreeMap::new();
+	for file in &args.files {
+		// A file without any line still counts (it gets its backup like the others)
+		per_file.entry(file.clone()).or_default();
+	}
 	for (path, line_no, processed) in results {
 		let output = format_output(args, processed);
 
